@@ -2,6 +2,7 @@ import AITB.Model.Proto
 import AITB.Model.Belief
 import AITB.Gen.Constants
 import AITB.Gen.BeliefSrc
+import AITB.Gen.BeliefDeepSrc
 open AITB AITB.Belief
 
 /-!
@@ -400,18 +401,22 @@ def accept : P String := do
   let acc ← P.bool
   P.eof
   let m := mk3 S A O T Ob
-  if cls == "denseM" || cls == "sparseM" then
+  if cls == "denseM" || cls == "sparseM" || cls == "sparseM0" then
     -- Eigen-matrix setters: `isProbability(const Matrix3D &)` / `(const SparseMatrix3D &)`; nothing is dropped
-    let spM := cls == "sparseM"
+    let spM := cls != "denseM"
     let comp := (if spM then "SparseModel" else "Model") ++ "/matrix_setters"
     let absDev (n : Nat) (row : Nat → Rat) : Rat := absQ (sumTo n (fun i => absQ (row i)) - 1)
     let ill := !(allRows m (fun n row => !nearTol (rowDev n row) && !(spM && nearTol (absDev n row))))
     if ill then return "skip ill_conditioned"
-    let model := if spM then allRows m (fun n row => isProbRowSp tolSmall n row) else allRows m (fun n row => isProbRowE tolSmall n row)
+    let model := if spM then allRows m (fun n row => isProbRowSpAs AITB.Gen.BeliefDeepSrc.sparseSignTest tolSmall n row)
+                 else allRows m (fun n row => isProbRowE tolSmall n row)
     let v : Verdict := { tag := "accept_" ++ cls ++ (if acc then "_yes" else "_no") }
     let v := dIf v (model != acc) (fun _ => s!"{comp} model={model} impl={acc}")
-    -- the sparse form has no sign test (Props.C05Load.isProbRowSp_accepts_negative): entries in [-tol, 0) pass, which is a matter of
-    -- model validity (C06), not of the belief update; what must hold for both: row sums within the tolerance, entries >= -tol
+    -- the sparse form as it stands has no sign test (Props.C05Load.isProbRowSp_accepts_negative, sparse_setters_unsigned_counterexample):
+    -- entries in [-tol, 0) pass, and `updateBelief` on the accepted object then returns negative "probabilities" (finding C05-2;
+    -- class `sparseM0` = the same probe with that judgement left out)
+    let v := fIf v (acc && cls == "sparseM" && !(allRows m (fun n row => allLt n (fun i => decide (0 ≤ row i)))))
+        (fun _ => s!"{comp} accepted_negative_entry")
     let v := fIf v (acc && !spM && !acceptDense tolSmall m) (fun _ => s!"{comp} accepted_invalid_model (negative entry or row sum beyond the tolerance)")
     let v := fIf v (acc && spM && !(allRows m (fun n row => decide (rowDev n row ≤ tolSmall) && allLt n (fun i => decide (-tolSmall ≤ row i)))))
         (fun _ => s!"{comp} accepted_invalid_model (row sum beyond the tolerance or entry below -tolerance)")
